@@ -89,22 +89,23 @@ func readCableLabsEbp(data []byte) (ebp *cableLabsEbp, err error) {
 		return nil, gots.ErrNoPayload
 	}
 
-	index := uint8(0)
+	// an int: a grouping chain can push the optional fields up to data[255] and data[256]
+	index := 0
 
 	ebp.DataFieldTag = data[index]
-	index += uint8(1)
+	index += 1
 
 	ebp.DataFieldLength = data[index]
-	index += uint8(1)
+	index += 1
 
 	// Check if the data is as advertised
 	if ebp.DataFieldLength > 0 {
 		if len(data) >= 7 {
 			ebp.FormatIdentifier = binary.BigEndian.Uint32(data[index : index+4])
-			index += uint8(4)
+			index += 4
 
 			ebp.DataFlags = data[index]
-			index += uint8(1)
+			index += 1
 		} else {
 			return nil, gots.ErrInvalidEBPLength
 		}
@@ -115,7 +116,7 @@ func readCableLabsEbp(data []byte) (ebp *cableLabsEbp, err error) {
 			return nil, gots.ErrInvalidEBPLength
 		}
 		ebp.ExtensionFlags = data[index]
-		index += uint8(1)
+		index += 1
 	}
 
 	if ebp.SapFlag() {
@@ -123,7 +124,7 @@ func readCableLabsEbp(data []byte) (ebp *cableLabsEbp, err error) {
 			return nil, gots.ErrInvalidEBPLength
 		}
 		ebp.SapType = data[index]
-		index += uint8(1)
+		index += 1
 	}
 
 	if ebp.GroupingFlag() {
@@ -135,30 +136,30 @@ func readCableLabsEbp(data []byte) (ebp *cableLabsEbp, err error) {
 		groupExtFlag = data[index]&0x80 != 0
 		group = data[index] & 0x7F
 		ebp.Grouping = append(ebp.Grouping, group)
-		index += uint8(1)
+		index += 1
 
 		for groupExtFlag {
-			if int(index) >= len(data) || index == 0xFF {
-				// the grouping chain runs past the end of the data (or of what the 8-bit cursor can address)
+			if int(index) >= len(data) {
+				// the grouping chain runs past the end of the data
 				return nil, gots.ErrInvalidEBPLength
 			}
 			groupExtFlag = data[index]&0x80 != 0
 			group = data[index] & 0x7F
 			ebp.Grouping = append(ebp.Grouping, group)
-			index += uint8(1)
+			index += 1
 		}
 	}
 
 	if ebp.TimeFlag() {
-		if int(index)+8 > len(data) || index > 0xFF-8 {
-			// the time field runs past the end of the data (or of what the 8-bit cursor can address)
+		if int(index)+8 > len(data) {
+			// the time field runs past the end of the data
 			return nil, gots.ErrInvalidEBPLength
 		}
 		ebp.TimeSeconds = binary.BigEndian.Uint32(data[index : index+4])
-		index += uint8(4)
+		index += 4
 
 		ebp.TimeFraction = binary.BigEndian.Uint32(data[index : index+4])
-		index += uint8(4)
+		index += 4
 	}
 
 	if ebp.PartitionFlag() {
@@ -166,7 +167,7 @@ func readCableLabsEbp(data []byte) (ebp *cableLabsEbp, err error) {
 			return nil, gots.ErrInvalidEBPLength
 		}
 		ebp.PartitionFlags = data[index]
-		index += uint8(1)
+		index += 1
 	}
 
 	// computed as int: DataFieldLength+2 does not fit a uint8 for lengths 254 and 255
